@@ -60,12 +60,132 @@ class Tr:
             raise Unsupported(f'{op} on {ka},{kb}')
         if isinstance(n, ast.Call):
             f = ast.unparse(n.func)
+            if f == 'np.diag' and len(n.args) == 1 and not n.keywords:
+                a = n.args[0]
+                # np.diag(1 / v): diagonal matrix of reciprocals; np.diag(v): diagonal matrix
+                if isinstance(a, ast.BinOp) and isinstance(a.op, ast.Div) and isinstance(a.left, ast.Constant) \
+                        and a.left.value == 1:
+                    k, t = self.ex(a.right)
+                    if k == 'RV':
+                        return ('M', f'(diag_mx (map_mx (fun x => x^-1) {t}))')
+                k, t = self.ex(a)
+                if k == 'RV':
+                    return ('M', f'(diag_mx {t})')
+                raise Unsupported('np.diag operand')
             if f == 'np.eye' and len(n.args) == 1 and not n.keywords:
                 k, t = self.ex(n.args[0])
                 if k == 'N':
                     return ('M', f'(1%:M : \'M_{t})')
             raise Unsupported('call ' + f)
         raise Unsupported(ast.dump(n)[:200])
+
+
+def is_clone_plumbing(st):
+    """self.tsvd_ = (sklearn.base.clone(self.tsvd) if self.tsvd is not None else tsvd.Tsvd())"""
+    return isinstance(st, ast.Assign) and ast.unparse(st.targets[0]) == 'self.tsvd_' \
+        and 'sklearn.base.clone(self.tsvd)' in ast.unparse(st.value) and 'tsvd.Tsvd()' in ast.unparse(st.value)
+
+
+def translate_dmd(src):
+    """Dmd._fit_regressor: matrix algebra around two LAPACK oracles (truncated SVD of Psi, eig of U_tilde)
+    and one lstsq; the mode_type branch gives two definitions of the modes."""
+    cls = [c for c in src.body if isinstance(c, ast.ClassDef) and c.name == 'Dmd'][0]
+    fn = [f for f in cls.body if isinstance(f, ast.FunctionDef) and f.name == '_fit_regressor'][0]
+    if [a.arg for a in fn.args.args] != ['self', 'X_unshifted', 'X_shifted']:
+        raise Unsupported('signature of Dmd._fit_regressor')
+    out = ['', 'Section GenDmd.', 'Variable F : fieldType.', 'Variables p q r : nat.',
+           "Variable X_unshifted : 'M[F]_(q, p).", "Variable X_shifted : 'M[F]_(q, p).",
+           "(* oracles: the truncated SVD of Psi (r retained triplets) and the eigendecomposition of U_tilde *)",
+           "Variables (Q : 'M[F]_(p, r)) (sigma : 'rV[F]_r) (Z : 'M[F]_(q, r)) (lmb : 'rV[F]_r) (V_tilde : 'M[F]_r).", '']
+    tr = Tr({'X_unshifted': ('M', 'X_unshifted'), 'X_shifted': ('M', 'X_shifted')})
+    svd_attr = {'self.tsvd_.left_singular_vectors_': ('M', 'Q'), 'self.tsvd_.singular_values_': ('RV', 'sigma'),
+                'self.tsvd_.right_singular_vectors_': ('M', 'Z')}
+    svd_of = None
+    eig_of = None
+    modes = {}
+    lstsq = False
+    for st in fn.body:
+        if isinstance(st, ast.Expr) and isinstance(st.value, ast.Constant):
+            continue
+        if is_clone_plumbing(st):
+            continue
+        if isinstance(st, ast.Expr) and ast.unparse(st.value).startswith('self.tsvd_.fit('):
+            k, t = tr.ex(st.value.args[0])
+            svd_of = t
+            tr.env.update(svd_attr)
+            continue
+        if isinstance(st, ast.Assign) and len(st.targets) == 1:
+            tg, v = st.targets[0], st.value
+            if isinstance(tg, ast.Tuple) and ast.unparse(v).startswith('linalg.eig('):
+                if [e.id for e in tg.elts] != ['lmb', 'V_tilde'] or len(v.args) != 1:
+                    raise Unsupported('eig call')
+                eig_of = tr.ex(v.args[0])[1]
+                tr.env['lmb'] = ('RV', 'lmb'); tr.env['V_tilde'] = ('M', 'V_tilde')
+                continue
+            if ast.unparse(tg) == 'self.eigenvalues_':
+                if ast.unparse(v) != 'lmb':
+                    raise Unsupported('eigenvalues_ is not the eig output')
+                tr.env['self.eigenvalues_'] = ('RV', 'lmb')
+                continue
+            if isinstance(tg, ast.Name) and tg.id == 'U' and 'linalg.lstsq' in ast.unparse(v):
+                want = 'linalg.lstsq(self.modes_.T, (self.modes_ @ Sigma).T)[0].T'
+                if ast.unparse(v) != want:
+                    raise Unsupported('reconstruction of U: ' + ast.unparse(v))
+                lstsq = True
+                continue
+            if isinstance(tg, ast.Name) and tg.id == 'coef':
+                if ast.unparse(v) != 'np.real(U.T)':
+                    raise Unsupported('coef: ' + ast.unparse(v))
+                continue
+            if isinstance(tg, ast.Name):
+                k, t = tr.ex(v)
+                if t in ('Q', 'sigma', 'Z'):
+                    if tg.id != t:
+                        raise Unsupported(f'oracle output {t} bound to the name {tg.id}')
+                    tr.env[tg.id] = (k, t)
+                    continue
+                if k not in ('M',):
+                    raise Unsupported('non-matrix assignment ' + tg.id)
+                out.append(f'Definition gen_dmd_{tg.id} := {t}.')
+                tr.env[tg.id] = ('M', f'gen_dmd_{tg.id}')
+                continue
+        if isinstance(st, ast.If):
+            # if self.mode_type == 'exact': ... elif self.mode_type == 'projected': ... else: assert False
+            node = st
+            while isinstance(node, ast.If):
+                test = ast.unparse(node.test)
+                if not test.startswith("self.mode_type == '"):
+                    raise Unsupported('branch ' + test)
+                name = test.split("'")[1]
+                body = node.body
+                if len(body) != 2 or ast.unparse(body[1].targets[0]) != 'self.modes_' \
+                        or ast.unparse(body[1].value) != ast.unparse(body[0].targets[0]):
+                    raise Unsupported('mode branch shape')
+                k, t = tr.ex(body[0].value)
+                out.append(f'Definition gen_dmd_modes_{name} := {t}.')
+                modes[name] = t
+                nxt = node.orelse
+                if len(nxt) == 1 and isinstance(nxt[0], ast.If):
+                    node = nxt[0]
+                else:
+                    if not (len(nxt) <= 2 and all(isinstance(x, (ast.Assert, ast.Expr)) for x in nxt)):
+                        raise Unsupported('else branch of mode_type')
+                    node = None
+            continue
+        if isinstance(st, ast.Return):
+            if ast.unparse(st.value) != 'coef':
+                raise Unsupported('return value')
+            continue
+        raise Unsupported('Dmd: ' + ast.unparse(st)[:200])
+    if svd_of is None or eig_of is None or not lstsq or set(modes) != {'exact', 'projected'}:
+        raise Unsupported('Dmd: expected SVD, eig, two mode types and the lstsq reconstruction')
+    out += ['(* the SVD oracle is applied to: *)', f'Definition gen_dmd_svd_argument := {svd_of}.',
+            '(* the eig oracle is applied to: *)', f'Definition gen_dmd_eig_argument := {eig_of}.',
+            "(* U = lstsq(modes^T, (modes Sigma)^T)[0]^T : coef^T is a least-squares solution X^T of  modes^T X = (modes Sigma)^T *)",
+            "Definition gen_dmd_lstsq_lhs (modes : 'M[F]_(p, r)) := modes^T.",
+            "Definition gen_dmd_lstsq_rhs (modes : 'M[F]_(p, r)) := (modes *m gen_dmd_Sigma)^T.",
+            'End GenDmd.', '']
+    return out
 
 
 def main():
@@ -128,6 +248,7 @@ def main():
         raise Unsupported('the method does not return the least-squares solution')
     out += ['', '(* the method returns coef = any least-squares solution X of  gen_edmd_lstsq_lhs *m X = gen_edmd_lstsq_rhs *)',
             'End GenEdmd.', '']
+    out += translate_dmd(src)
     os.makedirs(OUT, exist_ok=True)
     with open(os.path.join(OUT, 'Regressors.v'), 'w') as f:
         f.write('\n'.join(out) + '\n')
